@@ -305,7 +305,8 @@ impl Mk {
         for (i, &c) in cl.iter().enumerate() {
             assert!(c >= 2 && c < self.g.clusters + 2, "cluster {} out of range", c);
             assert!(self.is_free(c), "cluster {} already used", c);
-            let v = if i + 1 < cl.len() { cl[i + 1] } else { self.g.eoc() };
+            // any of the eight end-of-chain values is legal; which one is used depends on the cluster number
+            let v = if i + 1 < cl.len() { cl[i + 1] } else { (self.g.eoc() & !7) | (c & 7) };
             self.set_fat(c, v);
         }
     }
